@@ -20,13 +20,20 @@ C03 driver: replays a harness trace of two real `LightningChannel`s with reconne
   sig-verifies / delivery-rejected   a retransmitted message is rejected by the peer
   htlc-lost / htlc-duplicated / htlc-resurrected   an irrevocably committed HTLC is neither present
                      exactly once nor resolved when the channel is quiescent again
+  wire-roundtrip     a message (update, commitment_signed, revoke_and_ack, original or retransmitted)
+                     is not decoded by lnwire.ReadMessage as the sender built it
+  reestablish-wire   the channel_reestablish the peer decodes differs from the one ChanSyncMsg built
+                     (heights, last secret, commit point, taproot nonces; a sender without the
+                     data-loss-protect fields conveys the two heights)
   + all C01 clauses (conservation, capacity, tx-outputs, balance-moves, mirror-signed,
     mirror-idle with byte-equal transactions, commit-stable across restarts, internal-error)
 -/
 import LndModel.Prelude.Lines
 import LndModel.C01.Model
 import LndModel.C03.Model
+import LndModel.C03.Wire
 import LndModel.C03.Mirror
+import LndModel.C03.LinkDriver
 
 open LndModel LndModel.Lines LndModel.C01 LndModel.C03
 
@@ -205,8 +212,17 @@ structure St where
   pendSk : Option (String × String) := none
   reloaded : List String := []      -- nodes whose next dump is a restart
   lwrImpl : List (String × Bool) := []
-  syA : Option SyncMsg := none       -- model's channel_reestablish of A / B for this reconnection
-  syB : Option SyncMsg := none
+  syA : Option Reest := none         -- channel_reestablish of A / B as decoded by the peer, this reconnection
+  syB : Option Reest := none
+  builtA : List String := []         -- the fields of the Y line (as built by ChanSyncMsg)
+  builtB : List String := []
+  reA : Option Reest := none         -- model's channel_reestablish as built
+  reB : Option Reest := none
+  wireMsgs : Nat := 0
+  wireReest : Nat := 0
+  wireReestTail0 : Nat := 0
+  wireReestLegacy : Nat := 0
+  wireReestNonce : Nat := 0
   -- C03: monitor history (per sender)
   winA : List String := []           -- updates sent since the last own signature
   winB : List String := []
@@ -874,6 +890,24 @@ def optTok (o : Option Nat) (none_ : String) : String :=
   | some k => toString k
   | none => none_
 
+/-- `none` / `absent` / `-` ↦ none, a producer index ↦ some, `bad` (not an element of the producer) ↦ a
+    value no model message carries. -/
+def optOf (t : String) : Option Nat :=
+  if t == "none" || t == "absent" || t == "-" || t == "?" then none
+  else match t.toNat? with
+    | some k => some k
+    | none => some 1000000007
+
+def reestTok (m : Reest) : String :=
+  s!"nl:{m.nextLocal},rt:{m.remoteTail},sec:{optTok m.lastSecret "none"},pt:{optTok m.point "absent"},nonce:{m.nonce.isSome}"
+
+/-- fields of a Y / YW line as a `Reest` (the nonce symbolically: present or not). -/
+def reestOfLine (ws : List String) (nextLocal : Nat) : Reest :=
+  let hasNonce := (kv? ws "nonce").getD "-" != "-" || (kv? ws "nonces").getD "-" != "-"
+  { nextLocal := (kvNat? ws "nl").getD 0, remoteTail := (kvNat? ws "rt").getD 0,
+    lastSecret := optOf ((kv? ws "sec").getD "?"), point := optOf ((kv? ws "pt").getD "?"),
+    nonce := if hasNonce then some nextLocal else none }
+
 def syncMsgLine (s : St) (ws : List String) : IO St := do
   let mut s ← flush s
   let node := ws[1]?.getD ""
@@ -882,18 +916,68 @@ def syncMsgLine (s : St) (ws : List String) : IO St := do
     s ← monitor s "sync-error" s!"node={node} ChanSyncMsg failed: {resOf ws}"
     return { s with dead := true }
   let dlp := (kvNat? ws "dlp").getD 1 == 1
-  let m := (skOf s node).chanSyncMsg dlp
+  -- the model's message; the harness prints the fields before it strips the data-loss-protect
+  -- part for a legacy peer
+  let mFull := (skOf s node).reest true s.cfgA.taproot
+  let m := (skOf s node).reest dlp s.cfgA.taproot
+  let impl := reestOfLine ws mFull.nextLocal
   if s.skOk then
-    let sec := (kv? ws "sec").getD "?"
-    let pt := (kv? ws "pt").getD "?"
-    if (kvNat? ws "nl") != some m.nextLocal || (kvNat? ws "rt") != some m.remoteTail ||
-       sec != optTok m.lastSecret "none" || pt != optTok m.point "absent" then
-      s ← mismatch s s!"node={node} ChanSyncMsg model=nl:{m.nextLocal},rt:{m.remoteTail},sec:{optTok m.lastSecret "none"},pt:{optTok m.point "absent"} impl={ws.drop 2}"
+    if impl != mFull then
+      s ← mismatch s s!"node={node} ChanSyncMsg model={reestTok mFull} impl={ws.drop 2}"
   -- the monitor's own reading of the fields: a secret / point that is not the expected
   -- producer element is reported by the harness as `bad`
   if (kv? ws "sec") == some "bad" || (kv? ws "pt") == some "bad" then
     s ← monitor s "sync-error" s!"node={node} channel_reestablish carries a secret / commit point that is not an element of the producer"
-  return if node == "A" then { s with syA := some m } else { s with syB := some m }
+  if s.cfgA.taproot && impl.nonce.isNone then
+    s ← monitor s "sync-error" s!"node={node} ChanSyncMsg of a taproot channel carries no verification nonce"
+  return if node == "A" then { s with reA := some m, builtA := ws, syA := none }
+         else { s with reB := some m, builtB := ws, syB := none }
+
+/-- `YW`: the channel_reestablish as the peer decoded it from the wire. -/
+def syncWireLine (s : St) (ws : List String) : IO St := do
+  let mut s := s
+  let node := ws[1]?.getD ""
+  s := { s with ops := s.ops + 1, wireReest := s.wireReest + 1 }
+  if ws.contains "=>" then
+    s ← monitor s "reestablish-wire" s!"node={node} channel_reestablish does not survive WriteMessage/ReadMessage: {resOf ws}"
+    return { s with dead := true }
+  let built := if node == "A" then s.builtA else s.builtB
+  let dlp := (kvNat? built "dlp").getD 1 == 1
+  let f (l : List String) (k : String) : String := (kv? l k).getD "?"
+  -- (S) what the receiver decodes = what the sender built
+  let keys := ["nl", "rt", "sec", "pt", "nonce", "nonces", "dyn"]
+  let expect (k : String) : String :=
+    if dlp || k == "nl" || k == "rt" then f built k
+    else if k == "sec" then "none" else if k == "pt" then "absent" else "-"
+  let bad := keys.filter fun k => f ws k != expect k
+  if !bad.isEmpty then
+    let show_ (l : List String) := String.intercalate " " (keys.map fun k => s!"{k}={f l k}")
+    s ← monitor s "reestablish-wire" s!"node={node} fields {bad} differ: the peer decodes [{show_ ws}] but the sender built [{keys.map fun k => s!"{k}={expect k}"}] (dlp={dlp})"
+  let dec := reestOfLine ws ((kvNat? ws "nl").getD 0)
+  if dec.remoteTail == 0 then s := { s with wireReestTail0 := s.wireReestTail0 + 1 }
+  if dec.point.isNone then s := { s with wireReestLegacy := s.wireReestLegacy + 1 }
+  if dec.nonce.isSome then s := { s with wireReestNonce := s.wireReestNonce + 1 }
+  -- (X) the model's encoder / decoder
+  let m? := if node == "A" then s.reA else s.reB
+  if s.skOk then
+    match m? with
+    | none => s ← mismatch s s!"node={node} YW without Y"
+    | some m =>
+      match Reest.decode m.encode with
+      | none => s ← mismatch s s!"node={node} model cannot decode its own channel_reestablish"
+      | some md =>
+        if md != dec then
+          s ← mismatch s s!"node={node} channel_reestablish over the wire model={reestTok md} impl={ws.drop 2}"
+  return if node == "A" then { s with syA := some dec } else { s with syB := some dec }
+
+/-- `W`: a message of the exchange as built and as decoded. -/
+def wireLine (s : St) (ws : List String) : IO St := do
+  let s := { s with wireMsgs := s.wireMsgs + 1 }
+  let sent := ws[3]?.getD "?"
+  let got := (afterArrow ws).headD "??"
+  if sent != got then
+    monitor s "wire-roundtrip" s!"dir={ws[1]?.getD "?"} kind={ws[2]?.getD "?"} the receiver decodes {got} but the sender built {sent}"
+  else return s
 
 /-- expected retransmission from the operation history alone. -/
 def expectedRetx (pendSig : Option (List String)) (pendRev lastRev : Bool) : List String :=
@@ -953,7 +1037,7 @@ def processLine (s : St) (ws : List String) : IO St := do
   let msg? := if node == "A" then s.syB else s.syA
   let some msg := msg? | mismatch s s!"node={node} ProcessChanSyncMsg without the peer's ChanSyncMsg"
   let sk := skOf s node
-  match sk.processSync s.tweakless msg with
+  match sk.processReest s.tweakless s.cfgA.taproot msg with
   | .error e =>
     s ← mismatch s s!"node={node} processSync model={e.toString} impl=ok"
     return { s with skOk := false, modelOk := false }
@@ -1051,7 +1135,7 @@ def step (s : St) (line : String) : IO St := do
                       qab := [], qba := [], dA := {}, dB := {}, cur := none, dirty := [], qlenAB := 0, qlenBA := 0,
                       dead := false, resolved := [], hist := [], snapAB := [], snapBA := [],
                       skA := {}, skB := {}, sqab := [], sqba := [], skOk := true, pendSk := none, reloaded := [],
-                      lwrImpl := [], syA := none, syB := none, winA := [], winB := [], pendSigA := none,
+                      lwrImpl := [], syA := none, syB := none, builtA := [], builtB := [], reA := none, reB := none, winA := [], winB := [], pendSigA := none,
                       pendSigB := none, pendRevA := false, pendRevB := false, lastRevA := false, lastRevB := false,
                       committed := [], gone := [], tweakless := true, inCut := false, pCount := 0, everRev := [], signedNonAdd := [], gap := [], taint := [] }
     if s.samples < 4 then
@@ -1082,6 +1166,8 @@ def step (s : St) (line : String) : IO St := do
   | "X" :: _ => dropLine s ws
   | "R" :: _ => reloadLine s ws
   | "Y" :: _ => syncMsgLine s ws
+  | "YW" :: _ => syncWireLine s ws
+  | "W" :: _ => wireLine s ws
   | "P" :: _ => processLine s ws
   | "D" :: _ => deliverLine s ws
   | "A" :: _ => opLine s "A" ws
@@ -1095,7 +1181,10 @@ def step (s : St) (line : String) : IO St := do
 end LndModel.C03.Driver
 
 open LndModel.C03.Driver in
-def main : IO Unit := do
+def main (args : List String) : IO Unit := do
+  -- stream `link`: the link-level harness (one real channelLink, in-process flaps)
+  if args.contains "link" then
+    return ← LndModel.C03.LinkDriver.main
   let s ← LndModel.Lines.foldStdin step {}
   let s ← flush s
   IO.println s!"STAT lines={s.lines}"
@@ -1121,6 +1210,11 @@ def main : IO Unit := do
   IO.println s!"STAT both_sig_and_rev_owed={s.orderBoth}"
   IO.println s!"STAT resigned_after_revocation={s.resigns}"
   IO.println s!"STAT resign_refused_by_channel_constraint={s.signFailed}"
+  IO.println s!"STAT wire_messages_roundtripped={s.wireMsgs}"
+  IO.println s!"STAT wire_reestablish_roundtripped={s.wireReest}"
+  IO.println s!"STAT wire_reestablish_before_first_revocation={s.wireReestTail0}"
+  IO.println s!"STAT wire_reestablish_legacy_encoding={s.wireReestLegacy}"
+  IO.println s!"STAT wire_reestablish_with_nonce={s.wireReestNonce}"
   IO.println s!"STAT skeleton_state_checks={s.skelChecks}"
   IO.println s!"STAT index_invariant_checks={s.inv2Checks}"
   IO.println s!"STAT restart_checks={s.reloadChecks}"
